@@ -102,8 +102,13 @@ class ArrayConstraintBuilder(ConstraintOverrideVisitor):
             super().visit_constraint_if_else(c)
 
     def visit_expr_array_sum(self, s):
-        # Don't recurse into this
-        pass
+        # Don't recurse into this: the aggregate is expanded when it 
+        # is built. A copy of the enclosing expression (a foreach 
+        # body) refers to the same aggregate
+        self._expr = s
+
+    def visit_expr_array_product(self, s):
+        self._expr = s
 
     def visit_expr_array_subscript(self, s : ExprArraySubscriptModel):
         if self.phase != 1:
